@@ -467,6 +467,252 @@ def gen_splines(repo, outdir, summary):
     summary["splines"] = dict(changed=changed, systems=res)
 
 
+
+# ----------------------------------------------------------------------------------------------------------------------
+class KernelTranslator(object):
+    """Arithmetic kernels of the writers and of the [Tabulation] grid rules: ONE expression picked out of a function (a return
+    value, the right-hand side of an assignment or augmented assignment, a yielded value, an argument of a call, an element of a
+    `%`-format tuple, the element expression of a list comprehension) and translated with a declared list of free operands
+    (names, attribute chains, or whole sub-expressions given by their source text) as parameters 0..n-1."""
+
+    def __init__(self, src, params):
+        self.src = src
+        self.params = {p.replace(" ", ""): i for i, p in enumerate(params)}
+
+    def key(self, e):
+        seg = ast.get_source_segment(self.src, e)
+        return None if seg is None else seg.replace(" ", "")
+
+    def expr(self, e, env):
+        k = self.key(e)
+        if k in self.params:
+            return ("param", self.params[k])
+        if isinstance(e, ast.Constant) and isinstance(e.value, (int, float)) and not isinstance(e.value, bool):
+            return lit_of_text(ast.get_source_segment(self.src, e))
+        if isinstance(e, ast.Name):
+            if e.id in env:
+                return env[e.id]
+            raise Untranslatable("free name %s" % e.id)
+        if isinstance(e, ast.UnaryOp) and isinstance(e.op, ast.USub):
+            return ("neg", self.expr(e.operand, env))
+        if isinstance(e, ast.BinOp):
+            if isinstance(e.op, ast.Pow):
+                n = FormTranslator.int_literal(e.right)
+                if n is None or n < 0:
+                    raise Untranslatable("non-literal power")
+                return ("npow", self.expr(e.left, env), n)
+            op = {ast.Add: "add", ast.Sub: "sub", ast.Mult: "mul", ast.Div: "div"}.get(type(e.op))
+            if op is None:
+                raise Untranslatable("operator %s" % type(e.op).__name__)
+            return (op, self.expr(e.left, env), self.expr(e.right, env))
+        if isinstance(e, ast.Call):
+            f = e.func
+            if isinstance(f, ast.Name) and f.id == "float" and len(e.args) == 1 and not e.keywords:
+                return self.expr(e.args[0], env)
+            if isinstance(f, ast.Attribute) and isinstance(f.value, ast.Name) and f.value.id == "math" and f.attr in ("exp", "log", "sqrt") and len(e.args) == 1:
+                return (f.attr, self.expr(e.args[0], env))
+            raise Untranslatable("call %s" % (self.key(e) or "?")[:40])
+        raise Untranslatable("expression %s" % (self.key(e) or type(e).__name__)[:40])
+
+
+class _OperandRenamer(ast.NodeTransformer):
+    """rewrites the declared operands of a kernel to the names _p0, _p1, ... so that the harness can evaluate the ORIGINAL expression with Python itself
+    (translator validation: Lean evaluation of the generated term vs Python evaluation of the source expression on the same operand values)"""
+
+    def __init__(self, src, params):
+        self.src, self.params = src, {p.replace(" ", ""): i for i, p in enumerate(params)}
+
+    def visit(self, node):
+        seg = ast.get_source_segment(self.src, node) if isinstance(node, ast.expr) else None
+        if seg is not None and seg.replace(" ", "") in self.params:
+            return ast.copy_location(ast.Name(id="_p%d" % self.params[seg.replace(" ", "")], ctx=ast.Load()), node)
+        return self.generic_visit(node)
+
+
+def py_render(src, node, params):
+    import copy
+    return ast.unparse(ast.fix_missing_locations(_OperandRenamer(src, params).visit(copy.deepcopy(node))))
+
+
+def _find_function(tree, path):
+    node = tree
+    for part in path.split("."):
+        nxt = None
+        for n in ast.walk(node):
+            if n is not node and isinstance(n, (ast.FunctionDef, ast.ClassDef)) and n.name == part:
+                nxt = n
+                break
+        if nxt is None:
+            raise Untranslatable("no %s" % path)
+        node = nxt
+    return node
+
+
+def _ordered(node):
+    """statements / expressions of a function in source order (nested blocks included, nested function definitions excluded)"""
+    out = []
+
+    def visit(n):
+        for c in ast.iter_child_nodes(n):
+            if isinstance(c, (ast.FunctionDef, ast.ClassDef, ast.Lambda)):
+                continue
+            out.append(c)
+            visit(c)
+    visit(node)
+    out.sort(key=lambda n: (getattr(n, "lineno", 0), getattr(n, "col_offset", 0)))
+    return out
+
+
+PICKED = []      # (python-evaluable source of the expression(s) picked by the last pick_kernel call, over _p0.. and the straight-line names before it)
+
+
+def pick_kernel(src, fn, pick, params):
+    """-> list of terms (one for most kinds, several for `callargs`)"""
+    del PICKED[:]
+    kt = KernelTranslator(src, params)
+    nodes = _ordered(fn)
+    kind = pick[0]
+    env = {}
+    pre = []
+
+    def done(nodes_):
+        for x in nodes_:
+            PICKED.append("\n".join(pre + ["_result = " + (x if isinstance(x, str) else py_render(src, x, params))]))
+
+    def straight_env(upto_line):
+        # earlier plain assignments of the function (any nesting depth) whose value translates extend the environment
+        for n in nodes:
+            if not hasattr(n, "lineno"):
+                continue
+            if n.lineno >= upto_line:
+                break
+            if isinstance(n, ast.Assign) and len(n.targets) == 1 and isinstance(n.targets[0], ast.Name):
+                try:
+                    env[n.targets[0].id] = kt.expr(n.value, env)
+                    pre.append("%s = %s" % (n.targets[0].id, py_render(src, n.value, params)))
+                except Untranslatable:
+                    env.pop(n.targets[0].id, None)
+    if kind == "return":
+        c = [n for n in nodes if isinstance(n, ast.Return) and n.value is not None]
+        n = c[pick[1]]
+        straight_env(n.lineno)
+        done([n.value])
+        return [kt.expr(n.value, env)]
+    if kind == "yield":
+        c = [n for n in nodes if isinstance(n, ast.Yield) and n.value is not None]
+        n = c[pick[1]]
+        done([n.value])
+        return [kt.expr(n.value, env)]
+    if kind == "assign":
+        c = [n for n in nodes if isinstance(n, ast.Assign) and len(n.targets) == 1 and isinstance(n.targets[0], ast.Name) and n.targets[0].id == pick[1]]
+        n = c[pick[2]]
+        straight_env(n.lineno)
+        done([n.value])
+        return [kt.expr(n.value, env)]
+    if kind == "augassign":
+        c = [n for n in nodes if isinstance(n, ast.AugAssign) and isinstance(n.target, ast.Name) and n.target.id == pick[1]]
+        n = c[pick[2]]
+        op = {ast.Add: "add", ast.Sub: "sub", ast.Mult: "mul", ast.Div: "div"}.get(type(n.op))
+        if op is None:
+            raise Untranslatable("augmented operator")
+        done(["(%s) %s (%s)" % (py_render(src, n.target, params), {"add": "+", "sub": "-", "mul": "*", "div": "/"}[op], py_render(src, n.value, params))])
+        return [(op, kt.expr(n.target, env), kt.expr(n.value, env))]
+    if kind == "callargs":
+        c = [n for n in nodes if isinstance(n, ast.Call) and ((isinstance(n.func, ast.Name) and n.func.id == pick[1]) or (isinstance(n.func, ast.Attribute) and n.func.attr == pick[1]))]
+        n = c[pick[3] if len(pick) > 3 else 0]
+        done([n.args[i] for i in pick[2]])
+        return [kt.expr(n.args[i], env) for i in pick[2]]
+    if kind == "percent":
+        c = [n for n in nodes if isinstance(n, ast.BinOp) and isinstance(n.op, ast.Mod) and isinstance(n.left, ast.Constant) and isinstance(n.left.value, str) and isinstance(n.right, ast.Tuple)]
+        n = c[pick[1]]
+        done([n.right.elts[pick[2]]])
+        return [kt.expr(n.right.elts[pick[2]], env)]
+    if kind == "listcomp":
+        c = [n for n in nodes if isinstance(n, ast.Assign) and len(n.targets) == 1 and isinstance(n.targets[0], ast.Name) and n.targets[0].id == pick[1] and isinstance(n.value, ast.ListComp)]
+        n = c[pick[2]]
+        done([n.value.elt])
+        return [kt.expr(n.value.elt, env)]
+    raise Untranslatable("unknown pick %r" % (pick,))
+
+
+KERNELS = [
+    # name, file (under atsim/potentials), function path, pick, operands (= parameters 0..)
+    ("pair_dr", "pair_tabulation.py", "PairTabulation_AbstractBase.dr", ("return", 0), ["self.cutoff", "self.nr"]),
+    ("eam_drho", "eam_tabulation.py", "_EAMTabulationAbstractbase.drho", ("return", 0), ["self.cutoff_rho", "self.nrho"]),
+    ("r_iter", "pair_tabulation.py", "_r_value_iterator", ("yield", 0), ["n", "tabulation.cutoff", "tabulation.nr"]),
+    ("rho_iter", "eam_tabulation.py", "_rho_value_iterator", ("yield", 0), ["n", "tabulation.cutoff_rho", "tabulation.nrho"]),
+    ("lammps_args", "pair_tabulation.py", "LAMMPS_PairTabulation.write", ("callargs", "lmp_writePotentials", [1, 2, 3]), ["self.cutoff", "self.nr", "self.dr"]),
+    ("dlpoly_args", "pair_tabulation.py", "DLPoly_PairTabulation.write", ("callargs", "dlpoly_writePotentials", [1, 2]), ["self.cutoff", "self.nr"]),
+    ("setfl_args", "eam_tabulation.py", "SetFL_EAMTabulation.write", ("callargs", "writeSetFL", [0, 1, 2, 3]), ["self.nrho", "self.drho", "self.nr", "self.dr"]),
+    ("setfl_fs_args", "eam_tabulation.py", "SetFL_FS_EAMTabulation.write", ("callargs", "writeSetFLFinnisSinclair", [0, 1, 2, 3]), ["self.nrho", "self.drho", "self.nr", "self.dr"]),
+    ("tabeam_args", "eam_tabulation.py", "TABEAM_EAMTabulation.write", ("callargs", "writeTABEAM", [0, 1, 2, 3]), ["self.nrho", "self.drho", "self.nr", "self.dr"]),
+    ("tabeam_fs_args", "eam_tabulation.py", "TABEAM_FinnisSinclair_EAMTabulation.write", ("callargs", "writeTABEAMFinnisSinclair", [0, 1, 2, 3]), ["self.nrho", "self.drho", "self.nr", "self.dr"]),
+    ("lammps_row_r", "_lammps_writeTABLE.py", "_writeSinglePotential", ("assign", "r", 0), ["minr", "maxr", "gridPoints", "n"]),
+    ("dlpoly_mesh", "_dlpoly_writeTABLE.py", "writePotentials", ("assign", "meshResolution", 0), ["cutoff", "gridPoints"]),
+    ("dlpoly_r_step", "_dlpoly_writeTABLE.py", "_writePotential", ("augassign", "r", 0), ["r", "meshResolution"]),
+    ("dlpoly_r_step_force", "_dlpoly_writeTABLE.py", "_writePotential", ("augassign", "r", 1), ["r", "meshResolution"]),
+    ("dlpoly_force", "_dlpoly_writeTABLE.py", "_calculateForce", ("return", 0), ["r", "pot.force(r)"]),
+    ("setfl_rho", "_lammpsWriteEAM.py", "_writeSetFLEmbeddingFunction", ("assign", "rho", 0), ["i", "drho"]),
+    ("setfl_dens_r", "_lammpsWriteEAM.py", "_writeDensityFunction", ("assign", "r", 0), ["i", "dr"]),
+    ("setfl_pair_r", "_lammpsWriteEAM.py", "_writeSetFLPairPots", ("assign", "r", 0), ["k", "dr"]),
+    ("setfl_pair_scale", "_lammpsWriteEAM.py", "_writeSetFLPairPots", ("augassign", "val", 0), ["val", "r"]),
+    ("funcfl_cutoff", "_lammpsWriteEAM.py", "writeFuncFL", ("assign", "cutoff", 0), ["dr", "nr"]),
+    ("funcfl_charge", "_lammpsWriteEAM.py", "writeFuncFL", ("listcomp", "charges", 1), ["charge"]),
+    ("funcfl_rphi", "_lammpsWriteEAM.py", "writeFuncFL", ("listcomp", "charges", 0), ["pairpot.energy(sep)", "sep"]),
+    ("tabeam_sample", "_dlpoly_writeTABEAM.py", "_tabulateFunction", ("callargs", "func", [0]), ["i", "step"]),
+    ("tabeam_embe_end", "_dlpoly_writeTABEAM.py", "_writeEmbeddingFunction", ("percent", 0, 2), ["nrho", "drho"]),
+    ("tabeam_dens_end_fs", "_dlpoly_writeTABEAM.py", "_writeDensityFunction", ("percent", 0, 3), ["nr", "dr"]),
+    ("tabeam_dens_end", "_dlpoly_writeTABEAM.py", "_writeDensityFunction", ("percent", 1, 2), ["nr", "dr"]),
+    ("tabeam_pair_end", "_dlpoly_writeTABEAM.py", "_writePairPotential", ("percent", 0, 3), ["nr", "dr"]),
+    ("tabeam_numpots", "_dlpoly_writeTABEAM.py", "writeTABEAM", ("assign", "numpots", 1), ["len(eampots)"]),
+    ("tabeam_numpots_fs", "_dlpoly_writeTABEAM.py", "writeTABEAMFinnisSinclair", ("assign", "numpots", 1), ["len(eampots)"]),
+    ("initcutoff_cutoff", "config/_config_parser.py", "_TabulationCutoff._init_cutoff", ("assign", "cutoff", 1), ["nr", "dr"]),
+    ("plot_step", "__init__.py", "plotToFile", ("assign", "step", 0), ["lowx", "highx", "steps"]),
+    ("plot_v", "__init__.py", "plotToFile", ("assign", "v", 0), ["lowx", "i", "step"]),
+]
+
+
+def gen_kernels(repo, outdir, summary):
+    out = ["import AtsimModel.Model.Expr",
+           "/-! GENERATED by translator/py2lean.py - do not edit.  Arithmetic kernels of the writers and grid rules: one expression each,",
+           "    picked out of the named function of /repo's current source; operands are parameters 0.. in the order listed. -/",
+           "namespace Atsim.Gen", "open Atsim", ""]
+    res, table, srcs = {}, [], {}
+    cache = {}
+    for name, rel, path, pick, params in KERNELS:
+        try:
+            fp = os.path.join(repo, "atsim/potentials", rel)
+            if fp not in cache:
+                src = open(fp).read()
+                cache[fp] = (src, ast.parse(src))
+            src, tree = cache[fp]
+            fn = _find_function(tree, path)
+            terms = pick_kernel(src, fn, pick, params)
+            res[name] = True
+            if pick[0] == "callargs" and len(pick[2]) > 1:
+                for j, code in enumerate(PICKED):
+                    srcs["%s.%d" % (name, j)] = dict(code=code, operands=len(params))
+            else:
+                srcs[name] = dict(code=PICKED[0], operands=len(params))
+        except (Untranslatable, IndexError, OSError, SyntaxError) as e:
+            terms = [("bad",)] * (len(pick[2]) if pick[0] == "callargs" else 1)
+            res[name] = "%s: %s" % (type(e).__name__, e)
+        out.append("/-- %s, `%s` (%s); operands: %s -/" % (rel, path, " ".join(str(x) for x in pick), ", ".join("%d=%s" % (i, p) for i, p in enumerate(params))))
+        if pick[0] == "callargs" and len(pick[2]) > 1:
+            out.append("def k_%s : List E := %s" % (name, lean_list(terms)))
+            for j, t in enumerate(terms):
+                table.append('("%s.%d", %s, %d)' % (name, j, lean(t), len(params)))
+        else:
+            out.append("def k_%s : E := %s" % (name, lean(terms[0])))
+            table.append('("%s", k_%s, %d)' % (name, name, len(params)))
+        out.append("")
+    out.append("/-- (name, term, number of operands) for the driver's evaluation -/")
+    out.append("def kernelTable : List (String × E × Nat) := [\n  " + ",\n  ".join(table) + "]")
+    out += ["", "end Atsim.Gen", ""]
+    changed = write_if_changed(os.path.join(outdir, "Kernels.lean"), "\n".join(out))
+    summary["kernels"] = dict(changed=changed, kernels=res, python=srcs)
+
+
 # ----------------------------------------------------------------------------------------------------------------------
 def main():
     repo, outdir = sys.argv[1], sys.argv[2]
@@ -474,6 +720,7 @@ def main():
     gen_forms(repo, outdir, summary)
     gen_combinators(repo, outdir, summary)
     gen_splines(repo, outdir, summary)
+    gen_kernels(repo, outdir, summary)
     bad = []
     for k, e in summary["forms"]["forms"].items():
         for m, v in e.items():
@@ -485,6 +732,9 @@ def main():
     for k, v in summary["splines"]["systems"].items():
         if v is not True:
             bad.append("spline system %s: %s" % (k, v))
+    for k, v in summary["kernels"]["kernels"].items():
+        if v is not True:
+            bad.append("kernel %s: %s" % (k, v))
     print(json.dumps(dict(summary=dict(untranslatable=bad, forms_changed=summary["forms"]["changed"], combinators_changed=summary["combinators"]["changed"]),
                           detail=summary)))
 
